@@ -397,7 +397,7 @@ AsIs(s, pos, req, cx) ==
          IF Render(r.t) = "Any" THEN [t |-> Sub("dict", <<N("str"), N("Any")>>), imps |-> r.imps \cup {<<"typing", "Dict">>}] ELSE r
     [] pos = "respsvc" ->                                        \* resolve_operation_response_type: no nullable handling
          LET r == ResolveSchema(s, TRUE, FALSE, cx, Fuel) IN [t |-> Format(r), imps |-> r.imps]
-    [] pos = "alias" -> ResolveSchemaType(s, TRUE, TRUE, cx)      \* AliasGenerator: resolve_underlying
+    [] pos \in {"alias", "alias_def"} -> ResolveSchemaType(s, TRUE, TRUE, cx)      \* AliasGenerator: resolve_underlying
 
 (***************************************************************************)
 (* PART 3 - the bounded family of shapes (Gen_TypeResolve enumerates it,   *)
@@ -424,7 +424,7 @@ SomeNuls(S, keep) == UNION {{Nul(s, n) : n \in NulsFor(s) \cap keep} : s \in S}
 
 ChildLeaves(tier) ==
   {P("string", ""), P("string", "date-time"), P("integer", ""), Ref("Pet"), Ref("Color"), Ref("Name"), AnyS, Obj("x"), Obj("")}
-    \cup (IF tier = "quick" THEN {Ref("Self")} ELSE {Ref("Self"), Ref("Maybe"), Ref("Tags"), Ref("Either"), P("string", "uuid"), P("number", ""), E("string", "a,b"), MapT})
+    \cup (IF tier = "quick" THEN {Ref("Self")} ELSE Leaves(tier))
 Children(tier) == SomeNuls(ChildLeaves(tier), IF tier = "quick" THEN {"no", "nullable", "anyOfNull"} ELSE {"no", "nullable", "type31", "anyOfNull", "oneOfNull"})
 
 \* union members: pairwise disjoint value sets (different groups), so that oneOf and anyOf both admit the union
@@ -446,10 +446,10 @@ Shapes(tier) == AllNuls(Leaves(tier) \cup Depth1(tier)) \cup SomeNuls(Depth2(tie
 
 RECURSIVE HasSelf(_)
 HasSelf(s) == (s.k = "ref" /\ s.a = "Self") \/ \E i \in 1..Len(s.of) : HasSelf(s.of[i])
-Positions == <<"prop_req", "prop_opt", "param_req", "param_opt", "body_req", "body_opt", "resp", "respsvc", "top_use">>
+Positions == <<"prop_req", "prop_opt", "param_req", "param_opt", "body_req", "body_opt", "resp", "respsvc", "top_use", "alias_def">>
 \* where a shape can stand (the rest is outside the subject: streams / uploads, the loader's refusal of a bare alias)
 Applicable(s, pos) ==
   /\ HasSelf(s) => pos \in {"prop_req", "prop_opt"}
   /\ (s.k = "prim" /\ s.f = "binary") => pos \notin {"resp", "respsvc", "body_req", "body_opt"}
-  /\ (s.k = "ref" /\ s.nul = "no") => pos # "top_use"
+  /\ (s.k = "ref" /\ s.nul = "no") => pos \notin {"top_use", "alias_def"}
 =============================================================================
